@@ -22,17 +22,19 @@ type Monitors struct {
 	Viol []report.Violation
 
 	// current operation
-	opRole, opTok string
-	opFailed      bool   // an adapter fault or an unhandled user-function error occurred in the delivery in flight
-	opFnErr       string // last failing user-function outcome not (yet) followed by a Paused write
-	opLeaseLost   bool
-	opFailLabel   string
-	opStores      int
-	opInvocations []Invocation
-	curTimer      *workflow.TimeoutRecord
-	timerDone     map[int64]uint // timer ID -> version written by the transition of its timeout function (C12: it must never fire again)
-	pollList      []workflow.TimeoutRecord
-	pollIdx       int
+	opRole, opTok         string
+	opFailed              bool   // an adapter fault or an unhandled user-function error occurred in the delivery in flight
+	opFnErr               string // last failing user-function outcome not (yet) followed by a Paused write
+	opLeaseLost           bool
+	opFailLabel           string
+	opStores              int
+	opInvocations         []Invocation
+	curTimer              *workflow.TimeoutRecord
+	lookupsSinceTimeoutFn int            // record-store lookups since the last timeout-function invocation of this operation (the updater re-reads)
+	timeoutAdvanced       bool           // that invocation returned a real destination
+	timerDone             map[int64]uint // timer ID -> version written by the transition of its timeout function (C12: it must never fire again)
+	pollList              []workflow.TimeoutRecord
+	pollIdx               int
 
 	// deliveries
 	inflight    map[string]int  // receiver name -> log index delivered, not acked
@@ -501,6 +503,8 @@ func (m *Monitors) onInvoke(inv Invocation) {
 				fmt.Sprintf("timeout function of status %d invoked for run r%d persisted at status %d run state %d", t.Status, inv.Run, inv.Persisted.Status, prs))
 		}
 		m.NonTrivial["timeout-fired"] = true
+		m.lookupsSinceTimeoutFn = 0
+		m.timeoutAdvanced = strings.HasPrefix(inv.Outcome, "r:") && !strings.HasPrefix(inv.Outcome, "r:0:") && !strings.HasPrefix(inv.Outcome, "r:-1:")
 	case "hook":
 		if idx, ok := m.inflight[m.opRole]; ok {
 			ev := w.log[idx]
@@ -666,6 +670,11 @@ func (m *Monitors) onAck(name string, idx int) {
 	if cur, ok := m.inflight[name]; !ok || cur != idx {
 		m.violate("C07", "ack-own-delivery", "ack-of-undelivered-event", fmt.Sprintf("%s acked e%d", w.sim.Tok[name], idx))
 	}
+	if m.opFailed && w.sim.Tok[name] == "del" && len(w.env.Faults) == 0 && !m.opLeaseLost {
+		// C15: "If the delete function fails, the run stays RequestedDataDeleted with its object intact and the request is retried"
+		m.violate("C15", "failed-delete-retried", "failed-delete-acknowledged"+m.afterFlag(),
+			fmt.Sprintf("the delete consumer acknowledged e%d although the custom delete function failed (%q): the request is dropped, the run stays RequestedDataDeleted for good", idx, m.opFnErr))
+	}
 	if m.opFailed || m.opLeaseLost {
 		m.violate("C07", "ack-after-success-only", "ack-after-failure:"+strings.SplitN(w.sim.Tok[name], ":", 2)[0],
 			fmt.Sprintf("%s acknowledged e%d although its handling failed (fault plan %v, failing outcome %q, lease lost %v)", w.sim.Tok[name], idx, w.env.Faults, m.opFnErr, m.opLeaseLost))
@@ -696,6 +705,7 @@ func (m *Monitors) onClose(name string) {
 
 // onLookupResult: the first answer of the store during a delivery (the handler's read)
 func (m *Monitors) onLookupResult(r *workflow.Record) {
+	m.lookupsSinceTimeoutFn++
 	if _, ok := m.inflight[m.opRole]; !ok {
 		return
 	}
@@ -790,6 +800,18 @@ func (m *Monitors) onTimerCreate(t *workflow.TimeoutRecord) {
 }
 
 func (m *Monitors) onTimerCancel(id int64) {}
+
+// onTimerComplete (C12): "a successful timeout transition marks its timer completed": the timer of the timeout being processed
+// may be completed only after the updater has run (it re-reads the run before it writes).
+func (m *Monitors) onTimerComplete(id int64) {
+	if m.curTimer == nil || m.curTimer.ID != id || !strings.HasPrefix(m.opTok, "pol:") {
+		return
+	}
+	if m.timeoutAdvanced && m.lookupsSinceTimeoutFn == 0 {
+		m.violate("C12", "completed-only-after-transition", "timer-completed-before-its-transition in "+m.pathName(),
+			fmt.Sprintf("timer %d is marked completed before the transition returned by its timeout function has been persisted: a failure of that write loses the timeout for good", id))
+	}
+}
 
 // onPollLatest is called by the store wrapper when the poller re-reads a run: associates the next due timer.
 func (m *Monitors) pollerSaw(list []workflow.TimeoutRecord) { m.pollList = list; m.pollIdx = 0 }
